@@ -4,11 +4,11 @@
     affinely), however many worker processes are used for tessellation or voxelisation, and whatever cache size is
     configured through the environment.  Selecting any of these options never makes a previously valid call fail."
    This file only states the theorems; proofs are in Proofs/ConfigR.v.  The model (Model/Config.v) describes the REPAIRED
-   code: end test of find_span_binsearch (fixes/C17-binsearch-end-test.diff), int() around the environment value
-   (fixes/C17-cache-size-int.diff), sample-size setter (fixes/C17-sample-size-delta.diff). *)
-From Coq Require Import List Reals Lra Lia Arith Bool.
+   code: end test of find_span_binsearch (/repo b25d1c5), int() around the environment value (/repo ece600e),
+   sample-size setters (/repo 2a3e060); all three defects were found by this check on the pinned tree. *)
+From Coq Require Import List Reals Lra Lia Arith Bool QArith Qreals.
 From Coq Require String.
-From NV Require Import Scalar.Ops Model.Common Model.Basis Model.Knots Model.Eval Model.Config Proofs.BasisR Proofs.KnotsR Proofs.ConfigR.
+From NV Require Import Scalar.Ops Model.Common Model.Basis Model.Knots Model.Eval Model.Config Proofs.BasisR Proofs.KnotsR Proofs.ConfigR Transfer.BasisT Transfer.ConfigT.
 Import ListNotations.
 Open Scope R_scope.
 
@@ -26,6 +26,13 @@ Theorem C17_affine_invariance_curve : forall (a b : R) (dim p : nat) (U : list R
   curve_point Rops dim p (aff_kv Rops a b U) P (a * u + b) = curve_point Rops dim p U P u.
 Proof. intros a b dim p U P u Ha. exact (curve_point_aff a b Ha dim p U P u). Qed.
 Print Assumptions C17_affine_invariance_curve.
+
+(* [G] the same about the EXECUTABLE rational instance, by parametricity (Qeq component-wise, operations followed by Qred) *)
+Theorem C17_affine_invariance_curve_Q : forall dim p (U : list Q) (P : list (list Q)) (u a b : Q),
+  (0 < a)%Q -> (p < length P)%nat -> (length P + p <= length U)%nat ->
+  Forall2 Qeq (curve_point Qops dim p (aff_kv Qops a b U) P (oadd Qops (omul Qops a u) b)) (curve_point Qops dim p U P u).
+Proof. exact curve_point_aff_Q. Qed.
+Print Assumptions C17_affine_invariance_curve_Q.
 
 Theorem C17_affine_invariance_surface : forall dim pu pv Uu Uv su sv (P : list (list R)) u v a b a' b', 0 < a -> 0 < a' ->
   (pu < su)%nat -> (su + pu <= length Uu)%nat -> (pv < sv)%nat -> (sv + pv <= length Uv)%nat ->
@@ -78,10 +85,11 @@ Theorem C17_eval_independent_of_span_func_surface : forall dim pu pv Uu Uv su sv
 Proof. exact surface_point_sp_independent. Qed.
 Print Assumptions C17_eval_independent_of_span_func_surface.
 
-(* the code as pinned (tolerance shortcut |U_n - u| <= 10e-6 => last span) is refuted: an interior knot inside the tolerance *)
+(* the code as pinned at cdaf30b (tolerance shortcut |U_n - u| <= 10e-6 => last span; repaired by /repo b25d1c5) is refuted:
+   an interior knot inside the tolerance *)
 Theorem C17_binsearch_tolerance_refuted : exists (U : list R) (u : R),
   let tol := 1 / 100000 in
-  sortedR U /\ knR U 1 <= u <= knR U 3 /\ find_span_binsearch Rops tol 1 U 3 u <> Some (find_span_linear Rops 1 U 3 u).
+  sortedR U /\ knR U 1 <= u <= knR U 3 /\ find_span_binsearch_pinned Rops tol 1 U 3 u <> Some (find_span_linear Rops 1 U 3 u).
 Proof. exact binsearch_tolerance_refuted. Qed.
 Print Assumptions C17_binsearch_tolerance_refuted.
 
@@ -89,10 +97,13 @@ Print Assumptions C17_binsearch_tolerance_refuted.
 (* point evaluation: CurveEvaluator2 / SurfaceEvaluator2 inherit `evaluate` unchanged, so the model has ONE point function and
    the statement is an identity.  Their derivative algorithms differ (A3.2 vs A3.4, A3.6 vs A3.8): agreement of those is NOT
    proved here (partial); it is checked by the cross-configuration oracle of the check for orders 0 .. degree+1. *)
-Definition C17_evaluator_variants_agree_on_derivatives_full : Prop :=
-  forall (ders_default ders_alternative : nat -> list R -> list (list R) -> R -> nat -> list (list R)),
-  (* for the models of CurveEvaluator.derivatives and CurveEvaluator2.derivatives *)
-  forall p U P u order, ders_default p U P u order = ders_alternative p U P u order.
+Definition C17_evaluator_variants_agree_on_derivatives_full
+    (ders_default ders_alternative : nat -> nat -> list R -> list (list R) -> R -> nat -> list (list R)) : Prop :=
+  (* to be instantiated with the models of CurveEvaluator.derivatives (A3.2) and CurveEvaluator2.derivatives (A3.4),
+     Model/Derivs.v: curve_derivs and curve_derivs2 (property C02) *)
+  forall dim p U P u order, sortedR U -> (p < length P)%nat -> length U = (length P + p + 1)%nat ->
+    Forall (fun q => length q = dim) P -> knR U p <= u <= knR U (length P) ->
+    ders_default dim p U P u order = ders_alternative dim p U P u order.
 
 (* ---------------- worker processes ---------------- *)
 (* [G] mapping chunk by chunk and concatenating in order is the plain map, for EVERY chunking; Pool.map's own chunking
